@@ -674,6 +674,24 @@ def clump_case(draw):
         if n:
             groups.append({'t': t, 'n': n})
             remaining = max(0, remaining - n * per)
+    if draw(st.integers(0, 2)) == 0:
+        # land exactly on a size at the limit (the room the library keeps
+        # for the '/sync' element makes the last 20 bytes a case of their
+        # own): drop trailing elements, then fill with one blob
+        target = LIMIT - 4 * draw(st.integers(-2, 8))
+        size = lambda gs: 16 + sum(g['n'] * (tmpl_size(g['t']) + 4)
+                                   for g in gs)
+        room = tmpl_size(['blob', 4]) + 4 - 4     # element with empty blob
+        while groups and size(groups) + room > target:
+            g = groups[-1]
+            over = size(groups) + room - target
+            drop = min(g['n'], -(-over // (tmpl_size(g['t']) + 4)))
+            g['n'] -= drop
+            if g['n'] <= 0:
+                groups.pop()
+        fill = target - size(groups) - room
+        if fill >= 4 and fill % 4 == 0 and fill + room <= LIMIT - 60:
+            groups.append({'t': ['blob', fill], 'n': 1})
     return {'path': path, 'time': time, 'groups': groups}
 
 
